@@ -127,7 +127,7 @@ def fix_slot(image, ops):
 # ------------------------------------------------------------------------------------------------
 # scripted histories (coverage obligations)
 
-def scripted():
+def scripted(big=False):
     H = []
 
     def add(hid, img, ops, upc_b, lim=(4, 4, 1), **kw):
@@ -459,6 +459,27 @@ def scripted():
                             O('delete', d='d0', name='\u00e5X.DAT'), O('find', d='d0', name='\u00e5X.DAT'), O('iterate', d='d0'), O('lookup_all', d='d0'),
                             O('delete', d='d0', name='\u00e5B.TXT'), O('iterate', d='d0')] + epilogue()
         add('S18-' + gname, img, ops, img[1])
+
+    # S19: a directory of more than 2048 entries (130 clusters, fragmented chain): listing and lookup far into it
+    if big:
+        for gname in (['G16a', 'G32a'] if big == 'full' else ['G16a']):
+            v, upc, bounds = geom(gname, tree='T0', nfree=2, bounds=[0])
+            base = 40
+            chain = [base + 2 * i for i in range(65)] + [base + 2 * i + 1 for i in range(65)]      # 130 clusters, interleaved
+            ents = [f('B%04d.DAT' % i) for i in range(2070)]
+            v['root'] = [d('BIGDIR', chain, ents), f('AFTER.TXT')]
+            v['window'] = sorted(set(v['window'] + chain))
+            if big != 'full':
+                ops = prologue() + [O('open_dir', d='d0', name='BIGDIR', as_='d1'), O('iterate', d='d1'), O('find', d='d1', name='B2069.DAT'), O('close_dir', d='d1'),
+                                    O('close_dir', d='d0'), O('close_volume', v='v0')]
+                add('S19-' + gname, (dict(vols=[v]), upc, bounds), ops, upc)
+                continue
+            ops = prologue() + [O('open_dir', d='d0', name='BIGDIR', as_='d1'), O('iterate', d='d1'), O('find', d='d1', name='B2069.DAT'), O('find', d='d1', name='B2048.DAT'),
+                                O('find', d='d1', name='NOPE.DAT'), O('iterate_lfn', d='d1'),
+                                O('open_file', d='d1', name='B2050.DAT', mode='Append', as_='f0'), O('write', f='f0', n=1), O('close_file', f='f0'),
+                                O('delete', d='d1', name='B2047.DAT'), O('open_file', d='d1', name='NEW.DAT', mode='Create', as_='f1'), O('close_file', f='f1'),
+                                O('iterate', d='d1'), O('close_dir', d='d1')] + epilogue()
+            add('S19-' + gname, (dict(vols=[v]), upc, bounds), ops, upc)
 
     # S7: several volumes at once
     img = image_multi()
